@@ -465,7 +465,7 @@ def rand_tmsg(rng, c):
     if r < 0.96:
         return send(c, t_mkdir(rand_tname(rng)))
     # boundary sizes of the name-length field (declared size only; data short -> timeout / desync)
-    n = rng.choice([0, 4095, 4096])
+    n = rng.choice([0, 4095, 4096, 32767, 32768, 65535])
     ty = rng.choice([t_list, t_dl, t_ul, t_mkdir])
     return send(c, ty(b"/r.txt" if n else b"", n=n) if n in (0,) else ty(b"/" + b"x" * (n - 1)))
 
@@ -844,6 +844,10 @@ def oracle(ops, impl):
                             return "TightVNC extension touched %r outside its root %r (%r)" % (p, ROOT, l)
                         if p not in names and p not in cn["up"]:
                             return "TightVNC extension touched %r, not a path named by the client in this request" % p
+                if gate and len(msgs) == 1 and msgs[0].get("ty") in (131, 132) and not msgs[0].get("trunc") \
+                        and len(msgs[0]["pl"]) == msgs[0]["n"] and any(l.startswith("nonft") for l in blk):
+                    return ("TightVNC request with a %d-byte name was answered without consuming the name: "
+                            "the following bytes are taken for new messages (stream out of sync)" % msgs[0]["n"])
                 if not gate:
                     if wl:
                         return "TightVNC extension not enabled for c%d but sent %r" % (cid, wl[0])
@@ -923,6 +927,73 @@ def classify(ops, impl):
     return f
 
 
+def fixed_scripts(maxlen):
+    """scripts that are part of EVERY run (all tiers, all seeds), by construction:
+    (a) the permission callback is consulted per call while a transfer is open: its answer turns to
+        "no" at every consult position of a download and of an upload, and back to "yes";
+    (b) the exact length boundaries of rfbFilenameTranslate2UNIX for every operation that takes a
+        path: strlen == size (no HOME / "C:") and strlen(HOME)+1+strlen == size (HOME branch), and
+        one byte less;
+    (c) TightVNC names with "." components before / around "..", and controls;
+    (d) TightVNC name-size fields 0, 4095, 4096, 32767, 32768, 65535 (sign of `short`)."""
+    out = []
+    # (a)
+    for k in range(0, 13):
+        cb = "1" * k + "01"
+        out.append(("fixed:cb-download-%d" % k, ["cfg permit=1 cb=%s" % cb, "home 0", "conn c0", ft(0, 3, 0, 0, 7, b"big.bin"),
+                                               ft(0, 4, 0, 0, 0), "chunk c0", "chunk c0", "chunk c0", "chunk c0", "fds", "gone c0", "reap", "fds"]))
+        out.append(("fixed:cb-upload-%d" % k, ["cfg permit=1 cb=%s" % cb, "home 0", "conn c0", ft(0, 8, 0, 9, 7, b"cbup,ti" + b"\0\0\0\0"),
+                                             ft(0, 5, 0, 0, 3, b"abc"), ft(0, 5, 0, 0, 3, b"def"), ft(0, 5, 0, 0, 3, b"ghi"), ft(0, 6, 0, 0, 0),
+                                             "fds", "gone c0", "reap", "fds"]))
+    out.append(("fixed:cb-alternating", ["cfg permit=1 cb=1111111" + "01" * 8, "home 0", "conn c0", ft(0, 3, 0, 1, 7, b"big.bin"), ft(0, 4, 0, 0, 0)]
+                + ["chunk c0"] * 10 + ["fds", "gone c0", "reap", "fds"]))
+    # (b)
+    def one(op, p):
+        if op == "list":
+            return [ft(0, 1, 1, 0, len(p), p)]
+        if op == "req":
+            return [ft(0, 3, 0, 0, len(p), p), ft(0, 6, 0, 0, 0)]
+        if op == "offer":
+            q = p + b",t"
+            return [ft(0, 8, 0, 0, len(q), q + b"\0\0\0\0"), ft(0, 6, 0, 0, 0)]
+        if op == "mkdir":
+            return [ft(0, 10, 1, 0, len(p), p)]
+        if op == "del":
+            return [ft(0, 10, 4, 0, len(p), p)]
+        if op == "ren1":
+            q = p + b"*bmoved"
+            return [ft(0, 10, 5, 0, len(q), q)]
+        q = b"zz.bin*" + p
+        return [ft(0, 10, 5, 0, len(q), q)]
+    tails = {"list": b"dir1", "req": b"a.txt", "offer": b"bnew", "mkdir": b"bdir", "del": b"empty", "ren1": b"blk.bin", "ren2": b"bmoved2"}
+    for homek in (-1, 0, 1, 5, 30):
+        homelen = None if homek < 0 else (len(SBb) if homek == 0 else len(SBb) + 1 + homek)
+        ops = ["cfg permit=1 cb=none", "home %d" % homek, "conn c0"]
+        for op in ("list", "req", "offer", "mkdir", "del", "ren1", "ren2"):
+            lims = [maxlen] if homelen is None else [maxlen - homelen - 1]
+            for lim in lims:
+                for L in (lim - 1, lim, lim + 1):
+                    ops += one(op, lp(L, "rel", tails[op]))
+            for L in (maxlen - 1, maxlen):
+                ops += one(op, lp(L, "abs", tails[op]))
+        ops += ["fds", "gone c0", "reap", "fds"]
+        out.append(("fixed:boundary-home%d" % homek, ops))
+    # (c)
+    names = [b"/./..", b"/./../secret.txt", b"/rd/./../../secret.txt", b"/./rd/.././../root2/secret", b"/.//..", b"/rd/./..",
+             b"/././../..", b"/./.././secret.txt", b"/rd/../.", b"/..", b"/.", b"/./r.txt", b"/rd/./x", b"/./rd", b"/.hidden/..", b"/..."]
+    ops = ["cfg permit=0 cb=none", "tight reg=1 en=1", "conn c0 tight"]
+    for nm in names:
+        ops += [send(0, t_list(nm)), send(0, t_dl(nm)), send(0, t_ul(nm)), send(0, t_reason(135, b"x")), send(0, t_mkdir(nm))]
+    ops += ["fds", "gone c0", "reap", "fds"]
+    out.append(("fixed:tight-dot-dotdot", ops))
+    # (d)
+    for n in (0, 4095, 4096, 32767, 32768, 40000, 65535):
+        nm = (b"/" + b"x" * (n - 1)) if n else b""
+        out.append(("fixed:tight-name-size-%d" % n, ["cfg permit=0 cb=none", "tight reg=1 en=1", "conn c0 tight", send(0, t_dl(nm)), send(0, t_list(b"/")),
+                                                    send(0, t_ul(nm)), send(0, t_list(b"/rd")), "fds", "gone c0", "reap", "fds"]))
+    return [(n, "\n".join(o) + "\n") for n, o in out]
+
+
 def corpus_scripts():
     d = os.path.join(common.VERIF, "corpus", "C19")
     out = []
@@ -944,7 +1015,7 @@ def run(ctx):
         rec = json.load(open(ctx.replay))
         scripts = [("replay", "\n".join(rec.get("script", [])) + "\n")]
     else:
-        scripts = corpus_scripts()
+        scripts = corpus_scripts() + fixed_scripts(gen_const("MAX_PATH", MAX_PATH))
         n = 1500 if ctx.tier == "quick" else 20000
         for _ in range(n):
             scripts.append(gen_script(ctx.rng))
@@ -1015,8 +1086,6 @@ def run(ctx):
 
 
 PARTIAL = [
-    "teardown_releases_recorded_partial: for the TightVNC extension's uploadFD/downloadFD only 'what the client record holds is released at teardown' is a theorem; 'no TightVNC handler drops a descriptor without closing it' is not proved (checked on every run by the `fds` observations and the oracle)",
-    "transfer_dies_with_connection / descriptors_accounted (full strength, all sessions) are for clients that do not use the TightVNC extension (XInv contains tightExt = false)",
     "that teardown (`cleanup`) calls are made only by closeClient/reapClient is by construction of the model, not a theorem; lexical confinement assumes a symlink-free tree and '/'-free directory entry names",
 ]
 ASSUMPTIONS = [
